@@ -131,6 +131,8 @@ def note_present(eng, ver, k, v):
     """(k, v) is known to be an item of ver: instantiate every all-fold known on ver"""
     ver.picked.append((k, v))
     for name, val in list(ver.cache.items()):
+        if name not in FOLDS:
+            continue
         F = FOLDS[name]
         if F.kind == "all":
             eng.facts.add(z3.Implies(val, F.fn(eng, k, v)))
@@ -206,6 +208,17 @@ def fold(eng, ver, name):
                 oarr = FOLDS[other].param
                 eng.facts.add(z3.Implies(z3.And(oval, eng.facts.set_subset(oarr, arr)), r))
                 eng.facts.add(z3.Implies(z3.And(r, eng.facts.set_subset(arr, oarr)), oval))
+    if name.startswith("valseq@") or name == "bden":
+        # L12-count: every coefficient equals c  ==>  bden = c * (number of monomials equal to 1), a natural number
+        if "bden" in ver.cache or name == "bden":
+            bd = r if name == "bden" else ver.cache["bden"]
+            for other, oval in ([(name, r)] if name != "bden" else
+                                [(o, ov) for o, ov in ver.cache.items() if o.startswith("valseq@")]):
+                eng.nfresh += 1
+                cnt = z3.Int("count1_%d!%d" % (ver.n, eng.nfresh))
+                eng.facts.used.add("L12-count")
+                eng.facts.add(z3.Implies(oval, z3.And(cnt >= 0, cnt <= fold(eng, ver, "size") if name != "size" else True,
+                                                      bd == z3.RealVal(FOLDS[other].const) * z3.ToReal(cnt))))
     # congruence: dict versions asserted (conditionally) equal have equal folds
     for (va, vb, cond) in getattr(eng, "store_eqs", ()):
         other = vb if va is ver else (va if vb is ver else None)
@@ -223,3 +236,49 @@ def assert_same(eng, va, vb, cond):
         if name.startswith("within@"):
             continue
         eng.facts.add(z3.Implies(cond, fold(eng, va, name) == fold(eng, vb, name)))
+
+
+def valseq_fold(c):
+    """all-fold 'every stored coefficient equals the number c'"""
+    name = "valseq@%r" % (c,)
+    if name not in FOLDS:
+        F = Fold(name, "all", T.Bool, lambda e, k, v, c=c: _real(v) == z3.RealVal(c), T.Key)
+        F.const = c
+        FOLDS[name] = F
+    return name
+
+
+def nth_item(eng, ver, i):
+    """(k, v): the i-th item of the dict version in iteration order, on a path where size(ver) > i.
+    Facts (lemma L11-enum): the first i+1 items are pairwise distinct members; a dict of exactly n items is the
+    dict made of its first n items, so every fold of it is the fold of that explicit chain."""
+    nth = getattr(ver, "nth", None)
+    if nth is None:
+        nth = ver.nth = []
+        ver.closed = set()
+    while len(nth) <= i:
+        eng.nfresh += 1
+        k = z3.Const("item%d_of_%d!%d" % (len(nth), ver.n, eng.nfresh), ver.ksort)
+        if ver.ksort == T.Key:
+            eng.facts.key(k)
+        nth.append(k)
+    sz = fold(eng, ver, "size")
+    eng.facts.used.add("L11-enum")
+    for j in range(i + 1):
+        eng.facts.add(z3.Implies(sz > j, z3.Select(ver.dom, nth[j])))
+        for l in range(j):
+            eng.facts.add(z3.Implies(sz > j, nth[j] != nth[l]))
+    for n in range(1, i + 2):
+        if n in ver.closed:
+            continue
+        ver.closed.add(n)
+        alt = empty(eng, ver.ksort, ver.vsort)
+        for j in range(n):
+            alt = setitem(eng, alt, nth[j], z3.Select(ver.val, nth[j]))
+        cond = sz == n
+        eng.facts.add(z3.Implies(cond, ver.dom == alt.dom))
+        assert_same(eng, ver, alt, cond)
+    k, v = nth[i], z3.Select(ver.val, nth[i])
+    if not any(k.eq(pk) for pk, _ in ver.picked):
+        note_present(eng, ver, k, v)
+    return k, v
